@@ -27,7 +27,9 @@ CONSTANTS Idents,      \* thread idents (reusable)
           MaxEvents, MaxDepth, MaxGen,
           TopOnly      \* deviation switch
 
-VARIABLES tps,      \* installed tracepoints (never changes): records [id, kind, file, name, line, span]
+VARIABLES tps,      \* installed tracepoints (never changes): records [id, kind, file, name, line, span, faulty]
+                    \*   faulty: the tracepoint's action always fails (e.g. a malformed log template): no effect of
+                    \*   its own, and no effect on the other tracepoints of the location
                     \*   kind "line": file+line;  kind "method": file+name;  span: "none"|"line"|"method"
                     \*   (span tracepoints open a span; the others take a snapshot)
           alive,    \* ident -> BOOLEAN
@@ -51,7 +53,7 @@ Fires(tp, ev, fn, line) ==
     \/ tp.kind = "line" /\ ev = "line" /\ fn.file = tp.file /\ line = tp.line
     \/ tp.kind = "method" /\ ev = "call" /\ fn.file = tp.file /\ fn.name = tp.name
 
-Matching(ev, fn, line) == {tp \in tps : Fires(tp, ev, fn, line)}
+Matching(ev, fn, line) == {tp \in tps : Fires(tp, ev, fn, line) /\ ~tp.faulty}
 
 (* ---- pending-entry completion (C15) ---- *)
 EntryAt(e, ev, fn) ==
